@@ -1263,7 +1263,9 @@ impl Server {
         
         // Commands whose outcome is random (SPOP) or depends on the clock (XADD with an automatic
         // ID) are logged after execution, rewritten so that they replay to the same outcome
+        // EVALSHA is logged by its handler as EVAL with the script body (a replay has no script cache)
         let logged_by_outcome = command_name == "SPOP"
+            || command_name == "EVALSHA"
             || (command_name == "XADD"
                 && matches!(parts.get(2), Some(RespFrame::BulkString(Some(id))) if id.as_slice() == b"*"));
         
@@ -3366,6 +3368,9 @@ impl Server {
             RespFrame::BulkString(Some(std::sync::Arc::new(script.into_bytes()))),
         ];
         eval_parts.extend_from_slice(&parts[2..]);
+        
+        // The AOF gets the script itself: a server replaying the file has not loaded it
+        self.log_to_aof(db, &eval_parts);
         
         // Execute as EVAL in the database selected on this connection
         crate::storage::commands::lua::handle_eval_with_db(&self.storage, &eval_parts, db)
